@@ -54,7 +54,7 @@ CHECKS['C12'] = dict(cat='other', engine='symnp + z3 table encoding',
 CHECKS['C08'] = dict(cat='other', engine='symnp',
     technique='symbolic execution of the real ROI classes on symbolic points/parameters + SMT (linear and nonlinear real arithmetic)',
     text='Rectangle (all listed angles incl. multiples and near-multiples of pi/2, symbolic bounds), ellipse (listed radii, '
-         'symbolic centre; symbolic radii in the thorough tier), circle, annulus, x/y ranges, polygons (triangle, square, closed, '
+         'symbolic centre; ten listed radii pairs in the thorough tier), circle, annulus, x/y ranges, polygons (triangle, square, closed, '
          'concave, collinear vertex; symbolic translation) and projected 3-d regions: points are parametrised in the region frame '
          'and mapped forward, z3 proves inside => contained and outside => not contained outside a relative boundary band, '
          'for every array layout (1-d, row, column, 0-stride grid), after move_to / rotate_to / copy / save-restore, and that '
